@@ -237,6 +237,8 @@ func (s *clientSocket) Connect() {
 		return
 	}
 
+	// See `Manager.destroy`.
+	s.manager.destroyMu.Lock()
 	s.registerSubEvents()
 
 	s.manager.stateMu.RLock()
@@ -246,6 +248,7 @@ func (s *clientSocket) Connect() {
 		s.manager.allowConnection()
 		go s.manager.open()
 	}
+	s.manager.destroyMu.Unlock()
 
 	// If already connected, send a CONNECT packet.
 	if managerConnState == clientConnStateConnected && s.state != clientSocketConnStateConnectPending {
